@@ -37,9 +37,13 @@ Record func := { f_name : str; f_ret : str; f_params : list param }.
 (* A family lives in one module, or in a package: `fam_subs` says which classes / functions are defined in a
    submodule (name -> submodule; everything else, the constants included, in the package's __init__), and
    `fam_exports` lists the re-exports of __init__ (`from .sub import Target as Alias`: alias -> target). *)
+(* `fam_shadows`: names of classes of the family of which a SECOND module (fam_mod ++ "_alt") defines a homonym: a class
+   with the same __name__, the same parents and the same constructor.  It is never named by a class path of the modelled
+   space; it only makes the bare name ambiguous (resolve_class_path_by_name). *)
 Record family := { fam_mod : str; fam_classes : list cls; fam_funcs : list func;
                    fam_consts : list str;
-                   fam_subs : list (str * str); fam_exports : list (str * str) }.
+                   fam_subs : list (str * str); fam_exports : list (str * str);
+                   fam_shadows : list str }.
 
 Inductive importable := ICls (k : cls) | IFun (f : func) | IConst.
 
@@ -174,12 +178,18 @@ Fixpoint is_private (s : str) : bool :=
   | _ => false
   end.
 
+(* The homonym of a listed class is listed too (same parents, same abstractness, same name) - unless the class is the
+   declared type itself: its homonym derives from its parents, not from it.  Two candidates for one bare name:
+   "Multiple subclasses with name ..." (a ValueError, reported as a parse error). *)
+Definition ambiguous (F : family) (base nm : str) : bool :=
+  mem_str nm (fam_shadows F) && negb (str_eqb nm base).
+
 Definition resolve_name (F : family) (base nm : str) : res str :=
   if has_dot nm then Ok nm
   else match filter (fun k => str_eqb (c_name k) nm && is_subclass F (c_name k) base
                                 && negb (c_abstract k) && negb (is_private (path_of F (c_name k)))) (fam_classes F) with
        | [] => Ok nm
-       | [k] => Ok (path_of F (c_name k))
+       | [k] => if ambiguous F base nm then Err Reject else Ok (path_of F (c_name k))
        | _ => Err Reject
        end.
 
